@@ -9,6 +9,9 @@ git -C /repo worktree add -q --detach $MX/repo HEAD
 rsync -a --exclude target --exclude replays --exclude .git /verif/ $MX/verif/
 sed -i "s|path = \"/repo\"|path = \"$MX/repo\"|" $MX/verif/mc/Cargo.toml
 OUT=/verif/seeded/matrix.tsv
+# MATRIX_MODE=full runs every check for every change (about 3.5 min per change); the default runs the
+# check of the change's own property plus the nine checks whose quick tier takes under two seconds
+FAST="C02 C04 C05 C06 C07 C13 C15 C16 C17"
 ALL="C01 C02 C03 C04 C05 C06 C07 C08 C09 C10 C11 C12 C13 C14 C15 C16 C17 C18"
 [ -f $OUT ] || echo -e "mutant\tdetected_by\tnot_detected_by" > $OUT
 for md in "$@"; do
@@ -17,7 +20,15 @@ for md in "$@"; do
   ( cd $MX/repo && git checkout -q -- . && git apply $md/patch.diff ) || { echo -e "$name\tPATCH-FAILED\t" >> $OUT; continue; }
   det=""; ndet=""
   # C19 (the f32 build) repeats the C01-C07 spaces: it is run only for the changes written against C19
-  CHECKS="$ALL"; case "$name" in C19-*) CHECKS="$ALL C19" ;; esac
+  own="${name%%-*}"
+  if [ "${MATRIX_MODE:-fast}" = full ]; then
+    CHECKS="$ALL"; case "$name" in C19-*) CHECKS="$ALL C19" ;; esac
+  else
+    CHECKS="$FAST"
+    case "$own" in C??) case " $FAST " in *" $own "*) ;; *) CHECKS="$own $FAST" ;; esac ;; esac
+    # regressions of the pinned tree's defects: the checks that first reported them
+    case "$name" in orig-*) CHECKS="C01 C03 C09 $FAST" ;; esac
+  fi
   for c in $CHECKS; do
     nice -n 10 $MX/verif/check $c --tier quick > $MX/out.log 2>&1; rc=$?
     if [ $rc -eq 1 ]; then det="$det $c"; elif [ $rc -eq 0 ]; then ndet="$ndet $c"; else ndet="$ndet $c(rc=$rc)"; fi
